@@ -319,7 +319,42 @@ def r16_5(chk):
     chk.floor("R16.5", 2, "two readers")
 
 
+def r16_6(chk):
+    chk.rule("R16.6", "the app-level initialiser hands initialise_from_nested ONE likelihood function: model_result.lf is a mapping {identifier: lf} when the result holds several functions (split codons), the fitting code calls the initialiser with the identifier of the function being fitted, and _InitFrom.__call__ uses that identifier to select from the mapping -- otherwise the (swallowed) failure leaves every alternate un-initialised and likelihood ratios under an evaluation limit go negative")
+    em = chk.repo.module("app/evo.py")
+    rm = chk.repo.module("app/result.py")
+    # fact 1: model_result.lf can return a mapping
+    lfp = rm.cls("model_result").properties.get("lf", {}).get("get")
+    if lfp is None:
+        raise AnalysisError("model_result.lf property not found")
+    mapping = any(isinstance(st, ast.Assign) and isinstance(st.value, ast.Call) and call_name(st.value) in ("OrderedDict", "dict") for st in ast.walk(lfp))
+    # fact 2: the fitting code passes the identifier
+    cfg_fn = em.func("model._configure_lf")
+    passes = [c for c in walk_no_nested(cfg_fn) if isinstance(c, ast.Call) and norm(c.func) == "initialise" and len(c.args) >= 2 and norm(c.args[1]) == "identifier"]
+    if not passes:
+        raise AnalysisError("model._configure_lf: initialise(lf, identifier) not found")
+    call = em.func("_InitFrom.__call__")
+    ps = [p for p in params_of(call) if p != "self"]
+    ident = ps[1] if len(ps) > 1 else None
+    inits = [c for c in walk_no_nested(call) if isinstance(c, ast.Call) and isinstance(c.func, ast.Attribute) and c.func.attr == "initialise_from_nested"]
+    if not inits:
+        raise AnalysisError("_InitFrom.__call__: initialise_from_nested call not found")
+    from ..defuse import derived_names
+
+    used = ident is not None and ident in derived_names(call, {ident}) and any(expr_uses(call, inits[0].args[0], ident) for _ in [0])
+    chk.decide((not mapping) or bool(used), "R16.6", key(em, "_InitFrom.__call__", "selects the nested function by identifier"), em.loc(inits[0]), f"argument `{norm(inits[0].args[0])}` depends on `{ident}`", f"model_result.lf is a mapping for results with several functions, and _configure_lf passes the identifier, but `{norm(inits[0].args[0])}` does not depend on it: initialise_from_nested receives the whole mapping, fails, the failure is swallowed, and the alternate starts from defaults")
+    chk.floor("R16.6", 1, "one initialiser")
+
+
+def expr_uses(fn, expr, name):
+    """does the value of expr depend (through locals) on parameter `name`?"""
+    from ..defuse import derived_names, names_in
+
+    return bool(names_in(expr) & derived_names(fn, {name}))
+
+
 def run(chk):
+    r16_6(chk)
     r16_5(chk)
     r16_1(chk)
     r16_2(chk)
